@@ -72,8 +72,7 @@ class checker {
   bool dfs(u64 mask, u64 state) {
     if ((mask & required) == required) return true;
     if (++nodes >= budget) return false;
-    const u64 key = vh::hash_combine(mask, state);
-    if (!seen.insert(key).second) return false;
+    if (!seen.insert({mask, state}).second) return false;  // exact memo (no hash-only keys)
     // earliest return among un-linearized completed ops bounds the candidates
     u64 min_ret = PENDING;
     for (std::size_t i = 0; i < ops.size(); ++i)
@@ -110,7 +109,8 @@ class checker {
   u64 budget;
   u64 required{0};
   u64 nodes{0};
-  std::unordered_set<u64> seen;
+  struct pair_hash { std::size_t operator()(const std::pair<u64, u64>& p) const noexcept { return static_cast<std::size_t>(vh::hash_combine(p.first, p.second)); } };
+  std::unordered_set<std::pair<u64, u64>, pair_hash> seen;
 };
 
 }  // namespace vl
